@@ -392,6 +392,10 @@ def gen_synth(rng, lf_any_leader=False):
         sp = st[o]["space"]
         prefix = lo[o][:lo[o].index(sp[0])] if sp else list(lo[o])
         emeta[o] = {"config": cfg, "prefix": prefix, "func": sorted(func)}
+    if rng.random() < 0.2:
+        items = list(bindings.items())
+        rng.shuffle(items)
+        bindings = dict(items)
     spec["bindings"] = bindings
     extents = {"K": rng.randint(2, 5), "M": rng.randint(2, 4), "N": rng.randint(2, 4)}
     meta = {"class": "M", "mkind": "synth", "name": "synth", "syms": {}, "extents": extents, "mode": "metrics",
@@ -545,6 +549,9 @@ def gen_fusion_history(rng):
         if rng.random() < 0.3:
             # the time list only defines the time-stamp tuple of the display: any order is legal
             rng.shuffle(time)
+        if i and sorted(st[outs[i - 1]]["time"]) == sorted(time) and lo[outs[i - 1]] != list(perm) and rng.random() < 0.6:
+            # ... e.g. spelled exactly as the previous Einsum's although the loop order differs
+            time = list(st[outs[i - 1]]["time"])
         lo[o] = list(perm)
         st[o] = {"space": space, "time": time}
         cfg = "cfgA" if rng.random() < 0.75 else "cfgB"
@@ -571,12 +578,18 @@ def gen_fusion_history(rng):
                 bl.append({"component": "Seq", "bindings": [{"rank": r} for r in perm[:rng.randint(1, 3)]]})
         if rng.random() < 0.15:
             # a component that is named but bound to nothing must not count as "bound"
-            bl.append({"component": "Mul1", "bindings": []}) if not any(x.get("component") == "Mul1" for x in bl) else None
+            if not any(x.get("component") == "Mul1" for x in bl):
+                bl.insert(rng.randrange(1, len(bl) + 1), {"component": "Mul1", "bindings": []})
         if rng.random() < 0.3:
             # the binding list is an unordered sequence of records: the config record need not come first
             cfg_rec = bl.pop(0)
             bl.insert(rng.randrange(len(bl) + 1), cfg_rec)
         bindings[o] = bl
+    if rng.random() < 0.3:
+        # `bindings:` is a mapping keyed by Einsum name: its keys need not be in program order
+        items = list(bindings.items())
+        rng.shuffle(items)
+        bindings = dict(items)
     arch, ainfo = _arch(rng)
     spec = {"decl": decl, "exprs": exprs, "rank_order": None, "partitioning": None, "loop_order": lo,
             "spacetime": st, "arch": arch, "bindings": bindings, "format": None}
